@@ -141,6 +141,17 @@ def run(unit, R, tier, only=None):
         else:
             frames = {nm: fx.frame(pix[nm], ("count",)) for nm in reversed(names)}
             extra_kw = {}
+            if kk % 3 == 2:
+                # every third assignment: each cell's pixels as a ONE-SHOT iterator of chunks (one chunk, or split in two)
+                R.cls("pixels:one-shot-iterators")
+
+                def _gen(fr, two):
+                    if two and len(fr) >= 2:
+                        yield fr.iloc[:len(fr) // 2]
+                        yield fr.iloc[len(fr) // 2:]
+                    else:
+                        yield fr
+                frames = {nm: _gen(fr, q % 2 == 1) for q, (nm, fr) in enumerate(frames.items())}
         order = {True: ["chrom", "start", "end", "cov"], "first": ["cov", "chrom", "start", "end"], "middle": ["chrom", "start", "cov", "end"]}
         if per_cell == "once+extra":
             # ONE common table that carries an extra column (placed between the coordinates): every cell must carry it
